@@ -3,7 +3,8 @@ From V Require Import lib.Verdict C16.Model C16.Proofs.
 Open Scope N_scope.
 
 (* Headline.  For every finite key space, every transformation tr that (H_owned) only emits keys owned by its
-   input and (H_pure) depends on the sources only through the Fetch calls it reports, after ANY sequence of
+   input, (H_pure) depends on the sources only through the Fetch calls it reports and (H_supp) uses PartialFetch
+   only with selectors that are part of the projection, after ANY sequence of
    source mutations (add/update/no-op update/delete/Reset on the primary, add/update/delete on the fetched
    collections), queue deliveries in any interleaving, any iteration order of the changed-input set, and
    handler registrations: once the derived collection's queues are empty, its contents are exactly tr applied
@@ -15,6 +16,7 @@ Theorem C16_state_is_function :
     (forall i phi psi,
         (forall d, In d (fst (tr i phi)) -> phi (d_id d) (d_filter d) = psi (d_id d) (d_filter d)) ->
         tr i phi = tr i psi) ->
+    (forall i phi d, In d (fst (tr i phi)) -> supp_wf (d_filter d)) ->
     forall xs, Forall (ProofsInv.act_valid valid) xs ->
     let W := run univ tr w0 xs in
     qP W = [] -> qS W = [] ->
@@ -59,8 +61,17 @@ Theorem C16_fetch_only_changes_on_match :
     (forall p, np = Some p -> matches f (k, p) false = false) ->
     memb k univ = true ->
     fetch univ f (fset C k np) = fetch univ f C.
-Proof. exact fetch_unaffected. Qed.
+Proof. exact fetch_unaffected'. Qed.
 Print Assumptions C16_fetch_only_changes_on_match.
+
+(* PartialFetch: an update that leaves the projection unchanged (the case objectChanged skips for that
+   dependency, and only for that dependency) does not change the projected result. *)
+Theorem C16_partial_fetch_unchanged_when_suppressed :
+  forall univ f (C : coll) k o p n,
+    f_suppress f = Some n -> supp_wf f -> C k = Some o -> projn n o = projn n p ->
+    fetch univ f (fset C k (Some p)) = fetch univ f C.
+Proof. exact fetch_suppressed. Qed.
+Print Assumptions C16_partial_fetch_unchanged_when_suppressed.
 
 (* Event streams, under ownership: every subscriber's stream (early or late registration) is per-key
    well-formed — Add only of an absent key, Update/Delete only of a present key with its current value, no
@@ -72,6 +83,7 @@ Theorem C16_events_consistent :
     (forall i phi psi,
         (forall d, In d (fst (tr i phi)) -> phi (d_id d) (d_filter d) = psi (d_id d) (d_filter d)) ->
         tr i phi = tr i psi) ->
+    (forall i phi d, In d (fst (tr i phi)) -> supp_wf (d_filter d)) ->
     (forall i phi k v, valid i -> In (k, v) (snd (tr i phi)) -> k <> 0) ->
     forall xs, Forall (ProofsInv.act_valid valid) xs ->
     let W := run univ tr w0 xs in
